@@ -436,6 +436,97 @@ fn run_val(variant: &str, valt: &str) -> String {
     }
 }
 
+struct Refuser;
+impl MetricSink for Refuser {
+    fn emit(&self, _m: &str) -> io::Result<usize> {
+        Err(io::Error::new(io::ErrorKind::Other, "refused"))
+    }
+}
+
+/// The error handler and quiet sends under stress: every failed quiet send reaches the handler exactly once,
+/// (a) after an earlier handler invocation panicked, (b) when the handler itself makes a failing quiet send on
+/// the same client, (c) while another thread's handler invocation is still running.  Prints the number of
+/// handler invocations of each scenario (2 each).
+fn run_hdl() -> String {
+    use std::sync::atomic::{AtomicUsize, Ordering};
+    let a = {
+        let n = Arc::new(AtomicUsize::new(0));
+        let n2 = n.clone();
+        let client = StatsdClient::builder("p", Refuser)
+            .with_error_handler(move |_e| {
+                if n2.fetch_add(1, Ordering::SeqCst) == 0 {
+                    panic!("handler panic");
+                }
+            })
+            .build();
+        let _ = catch_unwind(AssertUnwindSafe(|| client.count_with_tags("k", 1).send()));
+        let _ = catch_unwind(AssertUnwindSafe(|| client.count_with_tags("k", 2).send()));
+        n.load(Ordering::SeqCst)
+    };
+    let b = {
+        let n = Arc::new(AtomicUsize::new(0));
+        let n2 = n.clone();
+        let slot: Arc<Mutex<Option<Arc<StatsdClient>>>> = Arc::new(Mutex::new(None));
+        let slot2 = slot.clone();
+        let client = Arc::new(
+            StatsdClient::builder("p", Refuser)
+                .with_error_handler(move |_e| {
+                    if n2.fetch_add(1, Ordering::SeqCst) == 0 {
+                        let inner = slot2.lock().unwrap().clone();
+                        if let Some(c) = inner {
+                            c.count_with_tags("from.handler", 1).send();
+                        }
+                    }
+                })
+                .build(),
+        );
+        *slot.lock().unwrap() = Some(client.clone());
+        let _ = catch_unwind(AssertUnwindSafe(|| client.gauge_with_tags("k", 1u64).send()));
+        *slot.lock().unwrap() = None;
+        n.load(Ordering::SeqCst)
+    };
+    let c = {
+        let n = Arc::new(AtomicUsize::new(0));
+        let n2 = n.clone();
+        let second_done = Arc::new(AtomicUsize::new(0));
+        let sd2 = second_done.clone();
+        let first_in = Arc::new(AtomicUsize::new(0));
+        let fi2 = first_in.clone();
+        let client = Arc::new(
+            StatsdClient::builder("p", Refuser)
+                .with_error_handler(move |_e| {
+                    if n2.fetch_add(1, Ordering::SeqCst) == 0 {
+                        fi2.store(1, Ordering::SeqCst);
+                        // parked until the other thread's failed send has returned (or 2 s)
+                        let t0 = std::time::Instant::now();
+                        while sd2.load(Ordering::SeqCst) == 0 && t0.elapsed() < Duration::from_secs(2) {
+                            std::thread::yield_now();
+                        }
+                    }
+                })
+                .build(),
+        );
+        let c1 = client.clone();
+        let t1 = std::thread::spawn(move || {
+            let _ = catch_unwind(AssertUnwindSafe(|| c1.count_with_tags("k", 1).send()));
+        });
+        let t0 = std::time::Instant::now();
+        while first_in.load(Ordering::SeqCst) == 0 && t0.elapsed() < Duration::from_secs(2) {
+            std::thread::yield_now();
+        }
+        let c2 = client.clone();
+        let t2 = std::thread::spawn(move || {
+            let _ = catch_unwind(AssertUnwindSafe(|| c2.count_with_tags("k", 2).send()));
+        });
+        let _ = t2.join();
+        let seen = n.load(Ordering::SeqCst);
+        second_done.store(1, Ordering::SeqCst);
+        let _ = t1.join();
+        seen
+    };
+    format!("a{},b{},c{}", a, b, c)
+}
+
 fn run_line(line: &str) -> Option<String> {
     let line = line.split(" => ").next().unwrap().trim();
     if line.is_empty() || line.starts_with('#') {
@@ -447,6 +538,7 @@ fn run_line(line: &str) -> Option<String> {
         "std" if f.len() == 5 => Some(format!("{} => {}", line, run_std(f[1], f[2], f[3], f[4]))),
         "val" if f.len() == 3 => Some(format!("{} => {}", line, run_val(f[1], f[2]))),
         "raw" if f.len() == 4 => Some(format!("{} => {}", line, run_raw(f[1], f[2], f[3]))),
+        "hdl" => Some(format!("hdl => {}", run_hdl())),
         _ => Some(format!("{} => malformed", line)),
     }
 }
@@ -845,6 +937,10 @@ fn main() {
     sequences(&mut out, &mut rng, nseq, false, &mut count);
     sequences(&mut out, &mut rng, nseq / 4, true, &mut count);
     std_cases(&mut out, &mut rng, nstd, &mut count);
+    for _ in 0..(if tier == "quick" { 3 } else { 200 }) {
+        writeln!(out, "hdl => {}", run_hdl()).unwrap();
+        count += 1;
+    }
     for i in 0..(nstd / 6) {
         let text = if i % 3 == 0 { gen_str(&mut rng, true) } else { format!("custom.metric:{}|x|#{}", gen_u64(&mut rng), gen_str(&mut rng, false)) };
         let sink = gen_sink(&mut rng, 30);
